@@ -10,7 +10,7 @@ RULE = ("cycle tables of generated signals, both centrings x start/stop in {None
         "reset_indices; limit_signal on the sample grid with the same limits; split_samples_df / drop_samples_df on the same tables; flatten_dfs on 1-D and 2-D lists of tables "
         "with labels (and mismatching label counts); judge: Lean specifications limitSpec / limitSignalSpec, column partition, order and labels; "
         "distinct = distinct (table, limits, flags); non-trivial = a strict non-empty subset of the rows / samples is kept")
-ASSUMPTIONS = ["start*fs, stop*fs and int(fs*start) are computed by the harness in float64 exactly as the implementation does and shipped exactly; the model is about the selection and the shift",
+ASSUMPTIONS = ["the window limits are shipped as the equivalent sample thresholds (smallest sample with s/fs >= start, largest with s/fs <= stop, computed in float64 as the implementation compares); the model is about the selection and the shift",
                "fs and limits are chosen so that start*fs is exact in float64 for the boundary cases (fs a power of two or limits on the sample grid with exact quotients)"]
 BATCH = 60
 
@@ -89,7 +89,26 @@ def evaluate(ctx, cases):
             except Exception as e:
                 gs, gt, serr = None, None, type(e).__name__
             a0 = 0 if a is None else a
-            fs_start = float(a0 * fs); fs_stop = None if b is None else float(b * fs); off = int(fs * a0)
+            # the implementation compares sample / fs with the limits (float division); ship the equivalent integer
+            # thresholds: smallest sample s with s / fs >= start, largest sample s with s / fs <= stop
+            def lower_idx(t):
+                k = int(round(t * fs)) - 3
+                while not (k / fs >= t): k += 1
+                return k
+            def upper_idx(t):
+                k = int(round(t * fs)) + 3
+                while not (k / fs <= t): k -= 1
+                return k
+            fs_start = float(lower_idx(a0)); fs_stop = None if b is None else float(upper_idx(b))
+            # the statement asks for ONE common offset; which one (within a sample of fs*start) is read off the
+            # implementation's first kept row and then required of every column and row by the specification
+            off = int(round(fs * a0))
+            if got is not None and c['reset'] and len(got):
+                side_ = 'trough' if c['center'] == 'peak' else 'peak'
+                kept0 = df[(df['sample_last_' + side_].values >= fs_start) & ((df['sample_next_' + side_].values <= fs_stop) if fs_stop is not None else True)]
+                if len(kept0):
+                    cand = int(kept0['sample_last_' + side_].values[0]) - int(got['sample_last_' + side_].values[0])
+                    if abs(cand - fs * a0) < 1: off = cand
             args = '%s %s %s %d %s' % (_rows_enc(df, c['center']), proto.enc_rat(fs_start), proto.enc_opt(fs_stop), off, 'T' if c['reset'] else 'F')
             targs = '%s %s %s' % (proto.enc_list(times), proto.enc_opt(a), proto.enc_opt(b))
             reqs += ['limitdf.model ' + args, 'limitdf.spec ' + args, 'limitsig.model ' + targs, 'limitsig.spec ' + targs]
